@@ -96,6 +96,7 @@ struct Explorer {
     }
     void transitionOracles(const WSnap& pre, const CallInfo& ci, Outcome oc, const WSnap& post, World& w, const Op& op, Sink& sink, Stats& st) const {
         if (orc.c06) tr_C06(pre, ci, oc, post, sink);
+        if (orc.c01) tr_C06(pre, ci, oc, post, sink, "C01");
         if (orc.c07) { int vk = -1; tr_C07(pre, ci, oc, post, sink, &vk); if (vk == Verdict::MUST_ACCEPT) st.c07accept++; else if (vk == Verdict::MUST_REFUSE) st.c07refuse++; else if (vk == Verdict::DONT_CARE) st.c07dontcare++; }
         if (orc.c08) tr_C08(pre, ci, oc, post, op.cls, sink);
         if (orc.c09) tr_C09(pre, ci, oc, post, sink);
